@@ -88,7 +88,7 @@ func (x *Exec) addPC(st *State, c Term) {
 func (x *Exec) merge(states ...*State) *State {
 	var live []*State
 	for _, s := range states {
-		if s != nil && !s.dead {
+		if s != nil && !s.dead && s.pc.S != "false" { // a state behind a constant-false condition is unreachable
 			live = append(live, s)
 		}
 	}
